@@ -37,10 +37,11 @@ func VH_C12_outputs() {
 	metricsRejected := zz.Bool("metrics_rejected")
 	hasAdmission := zz.Bool("writes_admission_response")
 	hasConversion := zz.Bool("writes_conversion_response")
+	allowFailure := zz.Bool("allow_failure")
 
 	bc := bctx.BindingContext{Binding: "b"}
 	bc.Metadata.BindingType = htypes.Schedule
-	bt := task.NewTask(HookRun).WithQueueName("main").WithMetadata(HookMetadata{HookName: "hookA", Binding: "b", BindingType: htypes.Schedule, BindingContext: []bctx.BindingContext{bc}})
+	bt := task.NewTask(HookRun).WithQueueName("main").WithMetadata(HookMetadata{HookName: "hookA", Binding: "b", BindingType: htypes.Schedule, AllowFailure: allowFailure, BindingContext: []bctx.BindingContext{bc}})
 	op.TaskQueues.GetMain().AddLast(bt)
 
 	ar := &admission.Response{Allowed: true}
@@ -95,7 +96,8 @@ func VH_C12_outputs() {
 	res := op.taskHandleHookRun(bt)
 
 	failed := zz.Or(runFails, zz.Or(zz.And(hasPatch, zz.Or(patchInvalid, applyFails)), metricsRejected))
-	zz.Assert(zz.Implies(failed, res.Status == "Fail"), "bad_exit_or_output_fails_the_execution")
+	zz.Assert(zz.Implies(zz.And(failed, !allowFailure), res.Status == "Fail"), "bad_exit_or_output_fails_the_execution")
+	zz.Assert(zz.Implies(zz.And(failed, allowFailure), res.Status == "Success"), "allowed_failure_is_not_retried")
 	zz.Assert(zz.Implies(zz.Not(failed), res.Status == "Success"), "clean_run_succeeds")
 	if hasPatch {
 		zz.Assert(parsed == 1, "patch_stream_parsed_once")
@@ -118,9 +120,13 @@ func VH_C12_outputs() {
 	if runFails {
 		zz.Assert(batches == 0, "no_metrics_after_failed_run")
 	}
-	if res.Status == "Success" {
-		zz.Assert((bt.GetProp("admissionResponse") == ar) == hasAdmission, "admission_response_kept_for_the_webhook")
-		zz.Assert((bt.GetProp("conversionResponse") == cr) == hasConversion, "conversion_response_kept_for_the_webhook")
-	}
+	// the webhook answer of an execution is recorded only when the whole execution succeeded:
+	// a failed execution (whatever allowFailure says) must not answer "allowed" / "converted"
+	gotAR := bt.GetProp("admissionResponse") == ar
+	gotCR := bt.GetProp("conversionResponse") == cr
+	zz.Assert(zz.Implies(zz.Not(failed), gotAR == hasAdmission), "admission_response_kept_for_the_webhook")
+	zz.Assert(zz.Implies(zz.Not(failed), gotCR == hasConversion), "conversion_response_kept_for_the_webhook")
+	zz.Assert(zz.Implies(failed, bt.GetProp("admissionResponse") == nil), "failed_execution_records_no_admission_response")
+	zz.Assert(zz.Implies(failed, bt.GetProp("conversionResponse") == nil), "failed_execution_records_no_conversion_response")
 	zz.Reach("end")
 }
